@@ -4,6 +4,8 @@ import (
 	"context"
 	"errors"
 	"sync/atomic"
+
+	"github.com/klev-dev/klevdb/pkg/vhook"
 )
 
 var ErrOffsetNotifyClosed = errors.New("offset notify already closed")
@@ -29,6 +31,7 @@ func (w *Offset) Wait(ctx context.Context, offset int64) error {
 	if w.nextOffset.Load() > offset {
 		return nil
 	}
+	vhook.At("notify.wait.slow")
 
 	// acquire current barrier
 	b, ok := <-w.barrier
@@ -36,12 +39,15 @@ func (w *Offset) Wait(ctx context.Context, offset int64) error {
 		// already closed, return error
 		return ErrOffsetNotifyClosed
 	}
+	vhook.At("notify.wait.acquired")
 
 	// probe the current offset
 	updated := w.nextOffset.Load() > offset
+	vhook.At("notify.wait.probed")
 
 	// release current barrier
 	w.barrier <- b
+	vhook.At("notify.wait.released")
 
 	// already has a new value, return
 	if updated {
@@ -65,16 +71,21 @@ func (w *Offset) Set(nextOffset int64) {
 		return
 	}
 
+	vhook.At("notify.set.acquired")
+
 	// set the new offset
 	if w.nextOffset.Load() < nextOffset {
 		w.nextOffset.Store(nextOffset)
 	}
+	vhook.At("notify.set.stored")
 
 	// close the current barrier, e.g. broadcasting update
 	close(b)
+	vhook.At("notify.set.broadcast")
 
 	// create new barrier
 	w.barrier <- make(chan struct{})
+	vhook.At("notify.set.done")
 }
 
 func (w *Offset) Close() error {
@@ -84,12 +95,15 @@ func (w *Offset) Close() error {
 		// already closed, return an error
 		return ErrOffsetNotifyClosed
 	}
+	vhook.At("notify.close.acquired")
 
 	// close the current barrier, e.g. broadcasting update
 	close(b)
+	vhook.At("notify.close.broadcast")
 
 	// close the barrier channel, completing process
 	close(w.barrier)
+	vhook.At("notify.close.done")
 
 	return nil
 }
